@@ -5,7 +5,7 @@ out=['''import DPProofs.C01String
 import DPProofs.C07
 /-!
 # C07 at string level (GENERATED text, one block per order × separator, same script): three numeric fields written in the order `O`
-with `/` or `-` between them are read as exactly that day, month and year — from the characters, for every valid date.
+with `/`, `-` or a space between them are read as exactly that day, month and year — from the characters, for every valid date.
 -/
 namespace DP
 
@@ -25,11 +25,13 @@ def micOf (y m d : Nat) : Comp → Option (List Char) := fun c => some (fieldTex
 ''']
 names=[]
 for perm in itertools.permutations(comps):
-    for sepname,sep in (('slash','/'),('dash','-')):
+    for sepname,sep in (('slash','/'),('dash','-'),('space',' ')):
         a,b,c=perm
         nm='%s_%s_%s_%s'%(a[0],b[0],c[0],sepname)
         names.append((perm,sep,nm))
         toks="[(%s, 0), (['%s'], 2), (%s, 0), (['%s'], 2), (%s, 0)]"%(txt[a],sep,txt[b],sep,txt[c])
+        ssep="[]" if sep==' ' else "['%s']"%sep   # the separator token after .strip()
+        stoks="[(%s, 0), (%s, 2), (%s, 0), (%s, 2), (%s, 0)]"%(txt[a],ssep,txt[b],ssep,txt[c])
         out.append('''
 theorem c07_%(nm)s (st : PSettings) (hst : st.order = [.%(a)s, .%(b)s, .%(c)s]) (y m d : Nat) (hd : DateOk y m d) :
     absParse st (renderOrder [.%(a)s, .%(b)s, .%(c)s] '%(sep)s' y m d) = .ok ({ y := y, mo := m, d := d }, .day) := by
@@ -45,13 +47,13 @@ theorem c07_%(nm)s (st : PSettings) (hst : st.order = [.%(a)s, .%(b)s, .%(c)s]) 
   have d1 : d / 10 < 10 := by omega
   have d2 : d %% 10 < 10 := by omega
   have htok : tokenize (renderOrder [.%(a)s, .%(b)s, .%(c)s] '%(sep)s' y m d) = .ok %(toks)s := by
-    simp [tokenize, tokGo, renderOrder, fieldText, pad4c, pad2c, tkCls_dch, tkCls_dash, tkCls_slash, y1, y2, y3, y4, m1, m2, d1, d2]
-  have hno : ∀ t ∈ %(toks)s, ¬ '.' ∈ (t : List Char × Nat).1 := by
+    simp [tokenize, tokGo, renderOrder, fieldText, pad4c, pad2c, tkCls_dch, tkCls_dash, tkCls_slash, tkCls_space, y1, y2, y3, y4, m1, m2, d1, d2]
+  have hno : ∀ t ∈ %(stoks)s, ¬ '.' ∈ (t : List Char × Nat).1 := by
     intro t ht
     simp only [List.mem_cons, List.not_mem_nil, or_false] at ht
     rcases ht with rfl | rfl | rfl | rfl | rfl <;>
       first | exact dot_pad4 y hy | exact colon_pad2 m hm '.' (by simp) | exact colon_pad2 d hdd '.' (by simp) | simp
-  have hcls : classify #%(toks)s =
+  have hcls : classify #%(stoks)s =
       [.%(a)s, .%(b)s, .%(c)s].map (fun c => fieldTI c (pad4c y) (pad2c m) (pad2c d) y m d true true (micOf y m d) false) := by
     simp [classify, fieldTI, micOf, fieldText, tiYear4, tiSmall, fmt_m, fmt_d, fmt_y, fmt_Y, dirNum_m2, dirNum_d2, dirNum_y2, dirNum_Y2, dirNum_Y4,
       dirNum_four_none, hy, hm, hdd, List.zipIdx,
@@ -62,24 +64,112 @@ theorem c07_%(nm)s (st : PSettings) (hst : st.order = [.%(a)s, .%(b)s, .%(c)s]) 
       dotAfter_false _ (fun t ht => hno t (List.mem_cons_of_mem _ ht)) _⟩
   unfold absParse
   rw [htok]
-  simp only [bind, Except.bind, List.map_cons, List.map_nil, stripWs_pad4 y hy, stripWs_pad2 m hm, stripWs_pad2 d hdd, stripWs_dash, stripWs_slash]
+  simp only [bind, Except.bind, List.map_cons, List.map_nil, stripWs_pad4 y hy, stripWs_pad2 m hm, stripWs_pad2 d hdd, stripWs_dash, stripWs_slash, stripWs_space]
   rw [hcls]
   exact C07_order_decides st _ (by simp [allOrders]) hst y m d hd.y1 hd.y2 hd.m1 hd.m2 hd.d1 hd.d2 (pad4c y) (pad2c m) (pad2c d) rfl
     (by simp [pad2c]) (by simp [pad2c]) true true (fun _ => rfl) (fun _ => rfl) (micOf y m d) false
-'''%dict(nm=nm,a=a,b=b,c=c,sep=sep,toks=toks))
+'''%dict(nm=nm,a=a,b=b,c=c,sep=sep,toks=toks,stoks=stoks))
 out.append('''
-/-- **C07_order_string**: for each of the six DATE_ORDER values `O` in force and both separators, a valid date whose fields are written
+/-- **C07_order_string**: for each of the six DATE_ORDER values `O` in force and the separators `/`, `-` and space, a valid date whose fields are written
     in the order `O` (two-digit day and month, four-digit year) is read as exactly that date — the whole absolute parser, from the characters. -/
-theorem C07_order_string (st : PSettings) (O : List Comp) (hO : O ∈ allOrders) (hst : st.order = O) (sep : Char) (hsep : sep = '/' ∨ sep = '-')
+theorem C07_order_string (st : PSettings) (O : List Comp) (hO : O ∈ allOrders) (hst : st.order = O) (sep : Char) (hsep : sep = '/' ∨ sep = '-' ∨ sep = ' ')
     (y m d : Nat) (hd : DateOk y m d) :
     absParse st (renderOrder O sep y m d) = .ok ({ y := y, mo := m, d := d }, .day) := by
   simp only [allOrders, List.mem_cons, List.mem_nil_iff, or_false] at hO
-  rcases hsep with rfl | rfl <;> rcases hO with rfl | rfl | rfl | rfl | rfl | rfl
+  rcases hsep with rfl | rfl | rfl <;> rcases hO with rfl | rfl | rfl | rfl | rfl | rfl
 ''')
 order_in_allOrders=[('day','month','year'),('day','year','month'),('month','day','year'),('month','year','day'),('year','day','month'),('year','month','day')]
-for sepname in ('slash','dash'):
+for sepname in ('slash','dash','space'):
     for perm in order_in_allOrders:
         nm='%s_%s_%s_%s'%(perm[0][0],perm[1][0],perm[2][0],sepname)
         out.append("  · exact c07_%s st hst y m d hd\n"%nm)
 out.append("\nend DP\n")
 open('/verif/lean/DPProofs/C07String.lean','w').write("".join(out))
+
+# ---------------------------------------------------------------- '.' between the fields (DPProofs/C07DotString.lean)
+out=['''import DPProofs.C07Dot
+/-!
+# C07 at string level with '.' between the fields (GENERATED text, one block per order, same script)
+
+The stage-1 records now carry whatever the "a '.' follows this token" look-up of the real `_parser` yields (`dotOf`, the expression of
+`classify` verbatim; it depends on the order and on whether day and month are written alike); `C07_order_decides_dots` holds for every
+value of those flags. The `H.M` clock reading (`hmMerge`) is ruled out by `classify` itself: each candidate pair is followed by another '.'.
+-/
+namespace DP
+
+/-- the look-up `'.' in tokens[tokens.index((token, 0)) + 1][0]` of `classify`, as a function of the raw token list -/
+def dotOf (raw : Array (List Char × Nat)) (tok : List Char) : Bool :=
+  match raw.toList.findIdx? (fun (t : List Char × Nat) => t.1 == tok && t.2 == 0) with
+  | none => false
+  | some j => match raw[j+1]? with
+    | none => false
+    | some (t2, _) => t2.contains '.'
+''']
+for perm in itertools.permutations(comps):
+    a,b,c=perm
+    nm='%s_%s_%s_dot'%(a[0],b[0],c[0])
+    toks="[(%s, 0), (['.'], 2), (%s, 0), (['.'], 2), (%s, 0)]"%(txt[a],txt[b],txt[c])
+    out.append('''
+theorem c07_%(nm)s (st : PSettings) (hst : st.order = [.%(a)s, .%(b)s, .%(c)s]) (y m d : Nat) (hd : DateOk y m d) :
+    absParse st (renderOrder [.%(a)s, .%(b)s, .%(c)s] '.' y m d) = .ok ({ y := y, mo := m, d := d }, .day) := by
+  have hy : y ≤ 9999 := hd.y2
+  have hm : m < 100 := by have := hd.m2; omega
+  have hdd : d < 100 := by have := hd.d2; have := dim_le_31 y m; omega
+  have y1 : y / 1000 < 10 := by omega
+  have y2 : y / 100 %% 10 < 10 := by omega
+  have y3 : y / 10 %% 10 < 10 := by omega
+  have y4 : y %% 10 < 10 := by omega
+  have m1 : m / 10 < 10 := by omega
+  have m2 : m %% 10 < 10 := by omega
+  have d1 : d / 10 < 10 := by omega
+  have d2 : d %% 10 < 10 := by omega
+  have htok : tokenize (renderOrder [.%(a)s, .%(b)s, .%(c)s] '.' y m d) = .ok %(toks)s := by
+    simp [tokenize, tokGo, renderOrder, fieldText, pad4c, pad2c, tkCls_dch, tkCls_dot, y1, y2, y3, y4, m1, m2, d1, d2]
+  have hcls : classify #%(toks)s =
+      [.%(a)s, .%(b)s, .%(c)s].map (fun c => fieldTID c (pad4c y) (pad2c m) (pad2c d) y m d true true (micOf y m d)
+        (fun c => dotOf #%(toks)s (fieldText y m d c))) := by
+    simp [classify, dotOf, fieldTID, micOf, fieldText, tiYear4, tiSmall, fmt_m, fmt_d, fmt_y, fmt_Y, dirNum_m2, dirNum_d2, dirNum_y2, dirNum_Y2, dirNum_Y4,
+      dirNum_four_none, hy, hm, hdd, List.zipIdx,
+      allAscii_pad4 y hy, natOfAscii_pad4 y hy, micro_pad4 y hy, merid_pad4 y hy, skip_pad4 y hy, colon_pad4 y hy,
+      allAscii_pad2 m hm, natOfAscii_pad2 m hm, micro_pad2 m hm, merid_pad2 m hm, skip_pad2 m hm, colon_pad2 m hm ':' (by simp),
+      allAscii_pad2 d hdd, natOfAscii_pad2 d hdd, micro_pad2 d hdd, merid_pad2 d hdd, skip_pad2 d hdd, colon_pad2 d hdd ':' (by simp)]
+    exact ⟨rfl, rfl, rfl⟩
+  unfold absParse
+  rw [htok]
+  simp only [bind, Except.bind, List.map_cons, List.map_nil, stripWs_pad4 y hy, stripWs_pad2 m hm, stripWs_pad2 d hdd, stripWs_dot]
+  rw [hcls]
+  exact C07_order_decides_dots st _ (by simp [allOrders]) hst y m d hd.y1 hd.y2 hd.m1 hd.m2 hd.d1 hd.d2 (pad4c y) (pad2c m) (pad2c d) rfl
+    (by simp [pad2c]) (by simp [pad2c]) true true (fun _ => rfl) (fun _ => rfl) (micOf y m d) _
+'''%dict(nm=nm,a=a,b=b,c=c,toks=toks))
+out.append('''
+/-- **C07_order_string_dot**: the statement of `C07_order_string` for '.' between the fields ('31.12.2020', '2020.31.12', …): the '.'
+    makes `classify` consider the `H.M` clock reading and the fraction-of-a-second look-up for every field, and neither changes the date read. -/
+theorem C07_order_string_dot (st : PSettings) (O : List Comp) (hO : O ∈ allOrders) (hst : st.order = O)
+    (y m d : Nat) (hd : DateOk y m d) :
+    absParse st (renderOrder O '.' y m d) = .ok ({ y := y, mo := m, d := d }, .day) := by
+  simp only [allOrders, List.mem_cons, List.mem_nil_iff, or_false] at hO
+  rcases hO with rfl | rfl | rfl | rfl | rfl | rfl
+''')
+for perm in order_in_allOrders:
+    out.append("  · exact c07_%s_%s_%s_dot st hst y m d hd\n"%(perm[0][0],perm[1][0],perm[2][0]))
+out.append('''
+/-- **C07_order_string_all**: every order × every separator of the property ('/', '-', '.', ' ') × every valid date, from the characters. -/
+theorem C07_order_string_all (st : PSettings) (O : List Comp) (hO : O ∈ allOrders) (hst : st.order = O) (sep : Char)
+    (hsep : sep ∈ ['-', '/', '.', ' ']) (y m d : Nat) (hd : DateOk y m d) :
+    absParse st (renderOrder O sep y m d) = .ok ({ y := y, mo := m, d := d }, .day) := by
+  simp only [List.mem_cons, List.mem_nil_iff, or_false] at hsep
+  rcases hsep with rfl | rfl | rfl | rfl
+  · exact C07_order_string st O hO hst _ (Or.inr (Or.inl rfl)) y m d hd
+  · exact C07_order_string st O hO hst _ (Or.inl rfl) y m d hd
+  · exact C07_order_string_dot st O hO hst y m d hd
+  · exact C07_order_string st O hO hst _ (Or.inr (Or.inr rfl)) y m d hd
+
+/-- non-vacuity: 29 February 2024 written year-first with dots is a rendering the theorem speaks about, and the model reads it. -/
+example : absParse { order := [.year, .month, .day] } (renderOrder [.year, .month, .day] '.' 2024 2 29)
+    = .ok ({ y := 2024, mo := 2, d := 29 }, .day) :=
+  C07_order_string_all _ _ (by simp [allOrders]) rfl '.' (by simp) 2024 2 29 ⟨by decide, by decide, by decide, by decide, by decide, by decide⟩
+example : renderOrder [.year, .month, .day] '.' 2024 2 29 = "2024.02.29".toList := by decide
+
+end DP
+''')
+open('/verif/lean/DPProofs/C07DotString.lean','w').write("".join(out))
